@@ -69,6 +69,23 @@ def make_si(ctx, k, tag='', f0=193.0e12, spacing=50e9, baud=32e9, slot=None, fre
     return si
 
 
+def make_twin(si, pre):
+    """a second SpectralInformation object with the same carriers and the same (symbolic) state as `si` had when `pre` was taken"""
+    from gnpy.core.info import SpectralInformation
+    k = len(pre['p'])
+
+    def col(v):
+        a = np.empty(k, dtype=object if any(is_symbolic(x) for x in v) else float)
+        for i, x in enumerate(v):
+            a[i] = x
+        return a
+    return SpectralInformation(frequency=np.array(pre['f'], dtype=float), baud_rate=col(pre['baud']), slot_width=col(pre['slot']),
+                               pch=col(pre['p']), signal_ratio=col(pre['s']), ase_ratio=col(pre['a']), nli_ratio=col(pre['n']),
+                               roll_off=si.roll_off.copy(), chromatic_dispersion=si.chromatic_dispersion.copy(), pmd=si.pmd.copy(),
+                               pdl=si.pdl.copy(), latency=si.latency.copy(), delta_pdb_per_channel=si.delta_pdb_per_channel.copy(),
+                               tx_osnr=si.tx_osnr.copy(), tx_power=si.tx_power.copy(), label=si.label.copy())
+
+
 def snap(si):
     """copy of the bookkeeping state (total power and the three shares) of a SpectralInformation"""
     return dict(p=list(si._pch), s=list(si._signal_ratio), a=list(si._ase_ratio), n=list(si._nli_ratio),
